@@ -1,0 +1,173 @@
+//go:build verif
+
+// Contracts for package pes (C11, C04), checked by /verif/engine (govc). Compiled only with the
+// build tag "verif". Layout per ISO/IEC 13818-1 2.4.3.6/2.4.3.7, stated arithmetically.
+
+package pes
+
+import (
+	"github.com/Comcast/gots/v2"
+	"github.com/Comcast/gots/v2/packet"
+)
+
+// specPTS: '001x' PTS[32..30] m PTS[29..15] m PTS[14..0] m (5 bytes).
+func specPTS(b []byte) uint64 {
+	return uint64(b[0]/2%8)*1073741824 + uint64(b[1])*4194304 + uint64(b[2]/2)*32768 + uint64(b[3])*128 + uint64(b[4]/2)
+}
+
+// specNoOptionalHeader: the stream ids defined without the optional PES header.
+func specNoOptionalHeader(id byte) bool {
+	return id == 190 || id == 191 || id == 240 || id == 241 || id == 242 || id == 248 || id == 255
+}
+
+// pesOf: the library's own implementation behind the interface (nil for anything else).
+func pesOf(h PESHeader) *pESHeader {
+	p, _ := h.(*pESHeader)
+	return p
+}
+
+//@ func ExtractTime(bytes []byte) uint64
+//@   props C04 C11
+//@   requires len(bytes) >= 5
+//@   ensures result == specPTS(bytes)
+//@   modifies nothing
+
+// Both PTS decoders of the library agree on every input.
+func lemmaPTSDecodersAgree(b []byte) bool { return ExtractTime(b) == gots.ExtractTime(b) }
+
+//@ func lemmaPTSDecodersAgree(b []byte) bool
+//@   props C04
+//@   requires len(b) >= 5
+//@   ensures result
+//@   modifies nothing
+
+//@ func CheckLength(byteArray []byte, name string, min int) bool
+//@   props C11
+//@   ensures result == (len(byteArray) >= min)
+//@   modifies nothing
+
+//@ func (pes *pESHeader) optionalFieldsExist() bool
+//@   props C11
+//@   requires pes != nil
+//@   ensures result == !specNoOptionalHeader(pes.streamId)
+//@   modifies nothing
+
+//@ func NewPESHeader(pesBytes []byte) (h PESHeader, err error)
+//@   props C11 C04
+//@   ensures pesOf(h) != nil && fresh(pesOf(h))
+//@   ensures (err == nil) == (len(pesBytes) >= 7)
+//@   ensures len(pesBytes) >= 7 ==> pesOf(h).packetStartCodePrefix == uint32(pesBytes[0])*65536+uint32(pesBytes[1])*256+uint32(pesBytes[2])
+//@   ensures len(pesBytes) >= 7 ==> pesOf(h).streamId == pesBytes[3] && pesOf(h).dataAlignment == ((pesBytes[6]/4)%2 == 1)
+//@   ensures len(pesBytes) >= 7 ==> pesOf(h).pesPacketLength == uint16(pesBytes[4])*256+uint16(pesBytes[5])
+//@   ensures len(pesBytes) >= 9 && !specNoOptionalHeader(pesBytes[3]) ==> pesOf(h).ptsDtsIndicator == pesBytes[7]/64
+//@   ensures len(pesBytes) < 9 || specNoOptionalHeader(pesBytes[3]) ==> pesOf(h).ptsDtsIndicator == 0 && pesOf(h).pts == 0 && pesOf(h).dts == 0
+//@   ensures len(pesBytes) >= 14 && !specNoOptionalHeader(pesBytes[3]) && pesBytes[7]/64 != 0 ==> pesOf(h).pts == specPTS(pesBytes[9:14])
+//@   ensures len(pesBytes) >= 19 && !specNoOptionalHeader(pesBytes[3]) && pesBytes[7]/64 == 3 ==> pesOf(h).dts == specPTS(pesBytes[14:19])
+//@   ensures len(pesBytes) >= 7 && specNoOptionalHeader(pesBytes[3]) ==> len(pesOf(h).data) == len(pesBytes)-6 && &pesOf(h).data[0] == &pesBytes[6]
+//@   ensures len(pesBytes) >= 9 && !specNoOptionalHeader(pesBytes[3]) && len(pesBytes) > 9+int(pesBytes[8]) ==> len(pesOf(h).data) == len(pesBytes)-9-int(pesBytes[8]) && &pesOf(h).data[0] == &pesBytes[9+int(pesBytes[8])]
+//@   ensures len(pesBytes) >= 9 && !specNoOptionalHeader(pesBytes[3]) && len(pesBytes) <= 9+int(pesBytes[8]) ==> pesOf(h).data == nil
+//@   modifies nothing
+
+//@ func (pes *pESHeader) PacketStartCodePrefix() uint32
+//@   props C11
+//@   requires pes != nil
+//@   ensures result == pes.packetStartCodePrefix
+//@   modifies nothing
+
+//@ func (pes *pESHeader) StreamId() uint8
+//@   props C11
+//@   requires pes != nil
+//@   ensures result == pes.streamId
+//@   modifies nothing
+
+//@ func (pes *pESHeader) PTS() uint64
+//@   props C11 C04
+//@   requires pes != nil
+//@   ensures result == pes.pts
+//@   modifies nothing
+
+//@ func (pes *pESHeader) DTS() uint64
+//@   props C11 C04
+//@   requires pes != nil
+//@   ensures result == pes.dts
+//@   modifies nothing
+
+//@ func (pes *pESHeader) Data() []byte
+//@   props C11
+//@   requires pes != nil
+//@   ensures len(result) == len(pes.data) && (len(result) > 0 ==> &result[0] == &pes.data[0]) && (pes.data == nil) == (result == nil)
+//@   modifies nothing
+
+//@ func (pes *pESHeader) HasPTS() bool
+//@   props C11
+//@   requires pes != nil
+//@   ensures result == (pes.ptsDtsIndicator/2%2 == 1)
+//@   modifies nothing
+
+//@ func (pes *pESHeader) HasDTS() bool
+//@   props C11
+//@   requires pes != nil
+//@   ensures result == (pes.ptsDtsIndicator == 3)
+//@   modifies nothing
+
+//@ func (pes *pESHeader) DataAligned() bool
+//@   props C11
+//@   requires pes != nil
+//@   ensures result == pes.dataAlignment
+//@   modifies nothing
+
+// The statement's clauses over the contracts: for a well-formed header with PTS and DTS the
+// decoded object reports exactly the encoded values and returns the bytes after the header.
+func lemmaPESWellFormed(b []byte) bool {
+	h, err := NewPESHeader(b)
+	ok := err == nil && h.PacketStartCodePrefix() == 1 && h.StreamId() == b[3] &&
+		h.DataAligned() == (b[6]&4 != 0)
+	if specNoOptionalHeader(b[3]) {
+		d := h.Data()
+		return ok && len(d) == len(b)-6 && &d[0] == &b[6]
+	}
+	ind := b[7] >> 6
+	ok = ok && h.HasPTS() == (ind == 2 || ind == 3) && h.HasDTS() == (ind == 3)
+	if ind == 2 || ind == 3 {
+		ok = ok && h.PTS() == specPTS(b[9:14])
+	}
+	if ind == 3 {
+		ok = ok && h.DTS() == specPTS(b[14:19])
+	}
+	d := h.Data()
+	return ok && len(d) == len(b)-9-int(b[8]) && &d[0] == &b[9+int(b[8])]
+}
+
+// well-formed: start code, optional header long enough for the announced timestamps, and at
+// least one payload byte after the header (ind == 1 is forbidden by the standard).
+//@ func lemmaPESWellFormed(b []byte) bool
+//@   props C11
+//@   requires len(b) >= 7 && b[0] == 0 && b[1] == 0 && b[2] == 1
+//@   requires specNoOptionalHeader(b[3]) || (len(b) > 9+int(b[8]) && b[7]/64 != 1 && (b[7]/64 >= 2 ==> b[8] >= 5) && (b[7]/64 == 3 ==> b[8] >= 10))
+//@   ensures result
+//@   modifies nothing
+
+//@ func AlignedPUSI(pkt *packet.Packet) (data []byte, ok bool)
+//@   props C11
+//@   requires pkt != nil
+//@   ensures !specPESStart(pkt) ==> data == nil && !ok
+//@   ensures specPESStart(pkt) && specPESNoOpt(pkt) ==> ok == ((pkt[specPL(pkt)+6]/4)%2 == 1)
+//@   ensures ok ==> specPESStart(pkt)
+//@   modifies nothing
+
+// specPL: payload offset; specPESStart: PUSI set and a payload of at least four bytes starting 00 00 01.
+func specPL(p *packet.Packet) int {
+	if (p[3]>>5)%2 == 1 {
+		return 5 + int(p[4])
+	}
+	return 4
+}
+
+func specPESStart(p *packet.Packet) bool {
+	return (p[1]>>6)%2 == 1 && (p[3]>>4)%2 == 1 && specPL(p)+4 <= 188 &&
+		p[specPL(p)] == 0 && p[specPL(p)+1] == 0 && p[specPL(p)+2] == 1
+}
+
+func specPESNoOpt(p *packet.Packet) bool { return specPL(p)+7 <= 188 }
+
+var _ = gots.ErrNoPayload
